@@ -1,70 +1,12 @@
 /-
-Helper lemmas relating the declarative reference `RFact` (Spec/ViewRef.lean) and the generated-
-code model `G` (Model/View.lean) on flat structures.
+Soundness and completeness of the generated-code model `G` (Model/View.lean) w.r.t. the
+declarative reference `RFact` (Spec/ViewRef.lean) on the fragment `refModule`: byte structures and
+`bits` containers, nested at any depth, scalars (`UInt`/`Int`/`Flag`/unsigned enums), virtual
+fields, aliases, conditions, parameters, `[requires]`, arrays of scalars.
 -/
-import Emboss.Spec.ViewRef
-import Emboss.Lemmas.ViewMono2
-import Emboss.Lemmas.Synth
-import Emboss.Model.ViewObs
+import Emboss.Lemmas.ViewRefBase
 namespace Emboss.ViewRef
 open Emboss.View
-
-mutual
-  theorem evalR_eq_eval (ρ : Env) : ∀ e : Expr, foldFree e = true → evalR ρ e = eval ρ e
-    | .const v, _ => by simp only [evalR, eval]
-    | .fold _ _, h => by simp [foldFree] at h
-    | .ref p, _ => by simp only [evalR, eval]
-    | .param n, _ => by simp only [evalR, eval]
-    | .has p, _ => by simp only [evalR, eval]
-    | .lv, _ => by simp only [evalR, eval]
-    | .op f args, h => by
-      simp only [foldFree] at h
-      simp only [evalR, eval, evalRList_eq_evalList ρ args h]
-  theorem evalRList_eq_evalList (ρ : Env) :
-      ∀ es : Exprs, foldFreeList es = true → evalRList ρ es = evalList ρ es
-    | .nil, _ => by simp only [evalRList, evalList]
-    | .cons e es, h => by
-      simp only [foldFreeList, Bool.and_eq_true] at h
-      simp only [evalRList, evalList, evalR_eq_eval ρ e h.1, evalRList_eq_evalList ρ es h.2]
-end
-
-theorem leNumber_eq (d : List Nat) : leNumber d = decodeLE d := by
-  induction d with
-  | nil => rfl
-  | cons b r ih => simp only [leNumber, List.foldr_cons, decodeLE] at *; rw [ih]
-
-theorem number_eq (bo : ByteOrder) (d : List Nat) : number bo d = decodeBytes bo d := by
-  cases bo <;> simp only [number, decodeBytes, leNumber_eq]
-
-theorem specDecode_eq (k : ScalarKind) (bits raw : Nat) (hk : (k == .uint || k == .int) = true)
-    (hb : 0 < bits) : specDecode k bits raw = scalarDecode k bits raw := by
-  cases k <;> simp at hk
-  · rfl
-  · simp only [specDecode, scalarDecode, toSigned]
-    congr 2
-    by_cases h : raw < 2 ^ (bits - 1)
-    · rw [if_pos h, if_neg (by omega)]
-    · rw [if_neg h, if_pos ⟨by omega, by omega⟩]
-
-theorem field_mem {sd : StructDef} {x : String} {f : Field} (h : sd.field x = some f) :
-    f ∈ sd.fields := by
-  unfold StructDef.field at h
-  exact List.mem_of_find?_eq_some h
-
-theorem flat_of_field {sd : StructDef} (hflat : flatStruct sd = true) {x : String} {f : Field}
-    (h : sd.field x = some f) : flatField f = true := by
-  unfold flatStruct at hflat
-  simp only [Bool.and_eq_true, List.all_eq_true] at hflat
-  exact hflat.2 f (field_mem h)
-
-theorem leaf_root (d : List Nat) (bo : ByteOrder) (bits : Nat) :
-    (Storage.bytes (some d)).adaptFor 8 1 bo bits =
-      .bits (if d.length * 8 = bits then some (decodeBytes bo d) else none) bits := by
-  simp [Storage.adaptFor, Storage.adapt]
-
-/-- what `ρ := envOf o w none` needs to be usable in a rule of `RFact` -/
-theorem param_rootView (o : Oracle) (sd : StructDef) (ps : List Val) (buf : List Nat) (n : String) (v : Val)
-    (h : (envOf o (rootView sd ps buf) none).param n = some v) : lookupParam sd.params ps n = some v := h
 
 theorem requiresOk_of_valueIsOk {o : Oracle} {w : SView} {req : Option Expr} {v : Val}
     (hff : foldFreeOpt req = true) (h : valueIsOk o w req v = true) :
@@ -76,469 +18,186 @@ theorem requiresOk_of_valueIsOk {o : Oracle} {w : SView} {req : Option Expr} {v 
   rw [evalR_eq_eval _ _ hff]
   have : ({ envOf o w none with lv := some v } : Env) = envOf o w (some v) := rfl
   rw [this]
-  unfold evalBool at h
-  split at h
-  · rename_i b hb; simp only [Option.some.injEq] at h; subst h; exact hb
-  · cases h
+  exact evalBool_some h
 
-/-- **Soundness of the generated-code model w.r.t. the reference** on flat structures: at every
-fuel, everything `G` reports as known — a readable field's value, a presence — is a fact of R. -/
-theorem G_sound (m : Module) (sd : StructDef) (hflat : flatStruct sd = true) (ps : List Val)
-    (buf : List Nat) : ∀ n,
-    (∀ p v, (G m n).read (rootView sd ps buf) p = some v → RFact sd ps buf (.val p v)) ∧
-    (∀ p b, (G m n).has (rootView sd ps buf) p = some b → RFact sd ps buf (.pres p b))
-  | 0 => by constructor <;> intro p v h <;> simp [G, Oracle.bottom] at h
-  | n + 1 => by
-    have ih := G_sound m sd hflat ps buf n
-    have hpres : ∀ x f b, sd.field x = some f →
-        hasField (G m n) (rootView sd ps buf) f = some b → RFact sd ps buf (.pres [x] b) := by
-      intro x f b hf hb
-      have hff := flat_of_field hflat hf
-      unfold flatField at hff
-      simp only [Bool.and_eq_true] at hff
-      refine RFact.pres (envOf (G m n) (rootView sd ps buf) none) hf ih.1 ih.2
-        (param_rootView _ sd ps buf) rfl ?_
-      rw [evalR_eq_eval _ _ hff.1]
-      unfold hasField evalBool at hb
-      split at hb
-      · rename_i c hc; simp only [Option.some.injEq] at hb; subst hb; exact hc
-      · cases hb
+/-- everything the oracle reports about `w` (values, presences) is a fact of R -/
+def FactsOf (m : Module) (o : Oracle) (w : SView) : Prop :=
+  (∀ p v, o.read w p = some v → RFact m w (.val p v)) ∧
+  (∀ p b, o.has w p = some b → RFact m w (.pres p b))
+
+theorem pres_sound {m : Module} {o : Oracle} {w : SView} (href : refStruct m w.sd = true)
+    (hfacts : FactsOf m o w) {x : String} {f : Field} {b : Bool} (hf : w.sd.field x = some f)
+    (hb : hasField o w f = some b) : RFact m w (.pres [x] b) := by
+  have hff := ref_of_field href hf
+  unfold refField at hff
+  simp only [Bool.and_eq_true] at hff
+  refine RFact.pres (envOf o w none) hf hfacts.1 hfacts.2 (fun _ _ h => h) rfl ?_
+  rw [evalR_eq_eval _ _ hff.1]
+  exact evalBool_some hb
+
+/-- facts of the view a structure-typed accessor returns are facts of the enclosing view -/
+theorem sub_sound {m : Module} {P : StructDef → Prop} (hm : Closed m P) {o : Oracle} {w : SView}
+    (hP : P w.sd) (hwf : viewWF w = true) (hfacts : FactsOf m o w)
+    {x : String} {f : Field} (hf : w.sd.field x = some f)
+    {start size : Expr} {name : String} {bits : Nat} {args : Exprs} {bo : ByteOrder}
+    (hk : f.kind = .phys start size (.struct name bits args) bo) {w' : SView}
+    (hsv : subView o m w f start size name bits args bo = some w') :
+    P w'.sd ∧ viewWF w' = true ∧
+      ∀ inner outer, inner.under x = some outer → RFact m w' inner → RFact m w outer := by
+  have href := hm.ref _ hP
+  have hff := ref_of_field href hf
+  unfold refField at hff
+  rw [hk] at hff
+  simp only [Bool.and_eq_true] at hff
+  obtain ⟨_, ⟨⟨hfstart, hfsize⟩, hfargs⟩, hchild⟩ := hff
+  obtain ⟨sd', hfind, hcase⟩ := subView_inv hsv
+  rw [hfind] at hchild
+  simp only at hchild
+  have hrefsd' : P sd' := hm.step _ hP x f hf _ _ _ _ _ _ _ hk hfind
+  rcases hcase with ⟨vs, st, hargs, hst, hw'⟩ | hw'
+  · obtain ⟨off, s, hhas, hsize, hstart, hs0, hoff0, hsteq⟩ := physStorage_some hst
+    have hlit : ∀ zl, size = .const (.int zl) → zl.toNat = s.toNat := by
+      intro zl hzl; subst hzl
+      have := evalInt_some hsize
+      simp only [eval, Option.some.injEq, Val.int.injEq] at this
+      rw [this]
+    obtain ⟨hwin, hwf'⟩ := window_bridge hwf hchild bo off.toNat s.toNat hlit (some vs)
+    rw [hsteq, hwin] at hw'
+    subst hw'
+    refine ⟨hrefsd', hwf', ?_⟩
+    intro inner outer hout hin
+    refine RFact.sub (s := off) (z := s) (envOf o w none) hf hk hfind (pres_sound href hfacts hf hhas)
+      hfacts.1 hfacts.2 (fun _ _ h => h) rfl ?_ ?_ hoff0 hs0 ?_ hin hout
+    · rw [evalR_eq_eval _ _ hfstart]; exact evalInt_some hstart
+    · rw [evalR_eq_eval _ _ hfsize]; exact evalInt_some hsize
+    · rw [evalArgsR_eq _ _ hfargs]; exact hargs
+  · subst hw'
+    exact ⟨hrefsd', viewWF_null sd', fun inner outer hout hin => RFact.nullsub hf hk hfind hin hout⟩
+
+/-- **Soundness of the generated-code model w.r.t. the reference**: at every fuel, everything
+`G` reports as known about any view of the fragment — a readable field's value, a presence, at
+any depth — is a fact of R. -/
+theorem G_sound (m : Module) {P : StructDef → Prop} (hm : Closed m P) : ∀ n (w : SView), P w.sd →
+    viewWF w = true → FactsOf m (G m n) w
+  | 0, w, _, _ => by constructor <;> intro p v h <;> simp [G, Oracle.bottom] at h
+  | n + 1, w, hP, hwf => by
+    have ih := G_sound m hm n
+    have ihw := ih w hP hwf
+    have href := hm.ref _ hP
     constructor
     · intro p v h
       cases p with
       | nil => simp [G, step] at h
       | cons x rest =>
-        simp only [G, step] at h
-        have hsd : (rootView sd ps buf).sd = sd := rfl
-        rw [hsd] at h
-        cases hf : sd.field x with
-        | none => rw [hf] at h; cases h
+        simp only [G] at h
+        cases hf : w.sd.field x with
+        | none => simp [step, hf] at h
         | some f =>
-          rw [hf] at h
-          simp only at h
-          have hff := flat_of_field hflat hf
-          unfold flatField at hff
+          have hff := ref_of_field href hf
+          unfold refField at hff
           simp only [Bool.and_eq_true] at hff
           obtain ⟨hcond, hkind⟩ := hff
           cases hk : f.kind with
-          | alias t => rw [hk] at hkind; cases hkind
+          | alias t =>
+            rw [step_read_alias m _ w hf hk] at h
+            by_cases hh : hasField (G m n) w f = some true
+            · rw [if_pos hh] at h
+              exact RFact.aliasVal hf hk (pres_sound href ihw hf hh) (ihw.1 _ _ h)
+            · rw [if_neg hh] at h; cases h
           | virt value req =>
-            rw [hk] at hkind h
+            rw [hk] at hkind
             simp only [Bool.and_eq_true] at hkind
             cases rest with
-            | cons y ys => simp at h
+            | cons y ys => rw [step_read_virt_deep m _ w hf hk] at h; cases h
             | nil =>
-              simp only at h
+              rw [step_read_virt m _ w hf hk] at h
               unfold virtRead at h
-              split at h
-              · rename_i v' hv'
-                split at h
-                · rename_i hok
-                  simp only [Option.some.injEq] at h; subst h
-                  refine RFact.virt (envOf (G m n) (rootView sd ps buf) none) hf hk ih.1 ih.2
-                    (param_rootView _ sd ps buf) rfl ?_ (requiresOk_of_valueIsOk hkind.2 hok)
-                  rw [evalR_eq_eval _ _ hkind.1]; exact hv'
-                · cases h
-              · cases h
-          | phys start size ty bo =>
-            rw [hk] at hkind h
-            cases ty with
-            | struct nm b a => cases hkind
-            | array e es => cases hkind
-            | scalar k bits req =>
-              cases rest with
-              | cons y ys => simp at h
-              | nil =>
+              cases hv : eval (envOf (G m n) w none) value with
+              | none => rw [hv] at h; cases h
+              | some v' =>
+                rw [hv] at h
                 simp only at h
-                cases size with
-                | const zv =>
-                  cases zv with
-                  | bool q => simp at hkind
-                  | int z =>
-                    simp only [Bool.and_eq_true, decide_eq_true_eq, beq_iff_eq] at hkind
-                    obtain ⟨⟨⟨⟨hkk, hbits⟩, hfstart⟩, hfreq⟩, hz0, hzb⟩ := hkind
-                    cases hst : physStorage (G m n) (rootView sd ps buf) f start (.const (.int z)) with
-                    | none => rw [hst] at h; cases h
-                    | some st =>
-                      rw [hst] at h
-                      simp only at h
-                      unfold physStorage at hst
-                      split at hst
-                      · rename_i s' off hhas hsz hoff
-                        split at hst
-                        · rename_i hnn
-                          simp only [Option.some.injEq] at hst
-                          have hs'z : s' = z := by
-                            unfold evalInt at hsz; simp only [eval] at hsz
-                            simp only [Option.some.injEq] at hsz; exact hsz.symm
-                          subst hs'z
-                          -- the storage handed to the leaf view
-                          have hst' : st = .bytes (some ((buf.drop off.toNat).take s'.toNat)) := by
-                            rw [← hst]; rfl
-                          subst hst'
-                          have hunit : sd.unit = 8 := by
-                            unfold flatStruct at hflat
-                            simp only [Bool.and_eq_true, beq_iff_eq] at hflat
-                            exact hflat.1
-                          rw [hunit, leaf_root] at h
-                          unfold leafRead at h
-                          split at h
-                          · rename_i raw nb hbitsEq
-                            simp only [Storage.bits.injEq] at hbitsEq
-                            obtain ⟨hraw, hnb⟩ := hbitsEq
-                            split at hraw
-                            · rename_i hlen
-                              simp only [Option.some.injEq] at hraw
-                              split at h
-                              · split at h
-                                · rename_i xv hdec
-                                  split at h
-                                  · rename_i hok
-                                    simp only [Option.some.injEq] at h; subst h
-                                    have hlen' : ((buf.drop off.toNat).take s'.toNat).length = s'.toNat := by
-                                      omega
-                                    have hin : off.toNat + s'.toNat ≤ buf.length := by
-                                      rw [List.length_take, List.length_drop] at hlen'
-                                      omega
-                                    refine RFact.scalar (s := off) (z := s')
-                                      (envOf (G m n) (rootView sd ps buf) none) hf hk
-                                      (hpres x f true hf hhas) ih.1 ih.2 (param_rootView _ sd ps buf) rfl
-                                      ?_ ?_ hnn.2 hnn.1 hzb hin ?_ (requiresOk_of_valueIsOk hfreq hok)
-                                    · rw [evalR_eq_eval _ _ hfstart]
-                                      unfold evalInt at hoff
-                                      split at hoff
-                                      · rename_i i hi; simp only [Option.some.injEq] at hoff; subst hoff; exact hi
-                                      · cases hoff
-                                    · simp only [evalR]
-                                    · rw [number_eq, specDecode_eq k bits _ hkk hbits, hraw]; exact hdec
-                                  · cases h
-                                · cases h
-                              · cases h
-                            · cases hraw
-                          · cases h
-                        · cases hst
-                      · cases hst
-                | fold a b => simp at hkind
-                | ref a => simp at hkind
-                | param a => simp at hkind
-                | has a => simp at hkind
-                | lv => simp at hkind
-                | op a b => simp at hkind
+                by_cases hok : valueIsOk (G m n) w req v' = true
+                · rw [if_pos hok] at h; cases h
+                  refine RFact.virt (envOf (G m n) w none) hf hk ihw.1 ihw.2 (fun _ _ h => h) rfl ?_
+                    (requiresOk_of_valueIsOk hkind.2 hok)
+                  rw [evalR_eq_eval _ _ hkind.1]; exact hv
+                · rw [if_neg hok] at h; cases h
+          | phys start size ty bo =>
+            rw [hk] at hkind
+            cases ty with
+            | array el es => rw [step_read_array m _ w hf hk] at h; cases h
+            | scalar k bits req =>
+              simp only [Bool.and_eq_true] at hkind
+              obtain ⟨⟨⟨hkk, hfstart⟩, hfreq⟩, hsz⟩ := hkind
+              cases rest with
+              | cons y ys => rw [step_read_scalar_deep m _ w hf hk] at h; cases h
+              | nil =>
+                rw [step_read_scalar m _ w hf hk] at h
+                cases hst : physStorage (G m n) w f start size with
+                | none => rw [hst] at h; cases h
+                | some st =>
+                  rw [hst] at h
+                  simp only at h
+                  obtain ⟨off, s, hhas, hsize, hstart, hs0, hoff0, hsteq⟩ := physStorage_some hst
+                  obtain ⟨z, hzl, hz0, hbits, h8, h1⟩ := sizeIsBits_inv hsz
+                  subst hzl
+                  have hsz' : z = s := by
+                    have := evalInt_some hsize
+                    simp only [eval, Option.some.injEq, Val.int.injEq] at this
+                    exact this
+                  subst hsz'
+                  rw [hsteq, leaf_bridge hwf hbits z.toNat h8 h1 bo off.toNat] at h
+                  obtain ⟨raw, hraw, _, hdec, hok⟩ := leafRead_bits h
+                  refine RFact.scalar (s := off) (z := z) (envOf (G m n) w none) hf hk
+                    (pres_sound href ihw hf hhas) ihw.1 ihw.2 (fun _ _ h => h) rfl ?_ ?_ hoff0 hs0 hraw ?_
+                    (requiresOk_of_valueIsOk hfreq hok)
+                  · rw [evalR_eq_eval _ _ hfstart]; exact evalInt_some hstart
+                  · simp only [evalR]
+                  · rw [specDecode_eq k bits _ hkk hbits]; exact hdec
+            | struct name bits args =>
+              cases rest with
+              | nil => rw [step_read_struct_nil m _ w hf hk] at h; cases h
+              | cons y ys =>
+                rw [step_read_struct m _ w hf hk] at h
+                cases hsv : subView (G m n) m w f start size name bits args bo with
+                | none => rw [hsv] at h; cases h
+                | some w' =>
+                  rw [hsv] at h
+                  simp only at h
+                  obtain ⟨hr', hw', hlift⟩ := sub_sound hm hP hwf ihw hf hk hsv
+                  exact hlift _ _ rfl ((ih w' hr' hw').1 _ _ h)
     · intro p b h
       cases p with
       | nil => simp [G, step] at h
       | cons x rest =>
-        simp only [G, step] at h
-        have hsd : (rootView sd ps buf).sd = sd := rfl
-        rw [hsd] at h
-        cases hf : sd.field x with
-        | none => rw [hf] at h; cases h
+        simp only [G] at h
+        cases hf : w.sd.field x with
+        | none => simp [step, hf] at h
         | some f =>
-          rw [hf] at h
-          simp only at h
           cases rest with
-          | nil => exact hpres x f b hf h
+          | nil => rw [step_has_nil m _ w hf] at h; exact pres_sound href ihw hf h
           | cons y ys =>
-            simp only at h
-            have hff := flat_of_field hflat hf
-            unfold flatField at hff
-            simp only [Bool.and_eq_true] at hff
-            obtain ⟨_, hkind⟩ := hff
             cases hk : f.kind with
-            | alias t => rw [hk] at hkind; cases hkind
-            | virt value req => rw [hk] at h; cases h
+            | alias t =>
+              rw [step_has_alias m _ w hf hk] at h
+              by_cases hh : hasField (G m n) w f = some true
+              · rw [if_pos hh] at h
+                exact RFact.aliasPres hf hk (pres_sound href ihw hf hh) (ihw.2 _ _ h)
+              · rw [if_neg hh] at h; cases h
+            | virt value req => rw [step_has_virt_deep m _ w hf hk] at h; cases h
             | phys start size ty bo =>
-              rw [hk] at hkind h
               cases ty with
-              | struct nm b a => cases hkind
-              | array e es => cases hkind
-              | scalar k bits req => cases h
-
-theorem foldFree_sizeClauses : ∀ fs : List Field, fs.all flatField = true →
-    foldFreeList (sizeClauses fs) = true
-  | [], _ => rfl
-  | f :: fs, h => by
-    simp only [List.all_cons, Bool.and_eq_true] at h
-    have ih := foldFree_sizeClauses fs h.2
-    have hf := h.1
-    unfold flatField at hf
-    simp only [Bool.and_eq_true] at hf
-    unfold sizeClauses
-    cases hk : f.kind with
-    | alias t => simpa only using ih
-    | virt a b => simpa only using ih
-    | phys start size ty bo =>
-      rw [hk] at hf
-      cases ty with
-      | struct a b c => cases hf.2
-      | array a b => cases hf.2
-      | scalar k bits req =>
-        obtain ⟨hc, hrest⟩ := hf
-        simp only [Bool.and_eq_true] at hrest
-        have hsz : foldFree size = true := by
-          cases size <;> first | rfl | (simp at hrest)
-        simp only [foldFreeList, sizeClause, foldFree, hc, hrest.1.1.2, hsz, ih, Bool.and_self]
-
-theorem foldFree_synthSize (fs : List Field) (h : fs.all flatField = true) :
-    foldFree (synthSize fs) = true := by
-  simp only [synthSize, foldFree, foldFreeList, foldFree_sizeClauses fs h, Bool.and_self]
-
-/-! ### completeness: what R defines, `G` reports once the fuel covers the field's dependencies -/
-
-/-- `ρ1` is below `ρ2` on the references of an expression (and on parameters and `this`). -/
-structure LeOn (refs : List (List String)) (ρ1 ρ2 : Env) : Prop where
-  read : ∀ p ∈ refs, OLe (ρ1.read p) (ρ2.read p)
-  has : ∀ p ∈ refs, OLe (ρ1.has p) (ρ2.has p)
-  param : ∀ n, OLe (ρ1.param n) (ρ2.param n)
-  lv : OLe ρ1.lv ρ2.lv
-
-theorem LeOn.mono {r1 r2 : List (List String)} {ρ1 ρ2 : Env} (h : LeOn r2 ρ1 ρ2)
-    (hs : ∀ p ∈ r1, p ∈ r2) : LeOn r1 ρ1 ρ2 :=
-  ⟨fun p hp => h.read p (hs p hp), fun p hp => h.has p (hs p hp), h.param, h.lv⟩
-
-mutual
-  theorem eval_le_on {ρ1 ρ2 : Env} : ∀ e : Expr, LeOn (exprRefs e) ρ1 ρ2 → OLe (eval ρ1 e) (eval ρ2 e)
-    | .const v, _ => by simp only [eval]; exact OLe.refl _
-    | .fold v _, _ => by simp only [eval]; exact OLe.refl _
-    | .ref p, h => by simp only [eval]; exact h.read p (by simp [exprRefs])
-    | .param n, h => by simp only [eval]; exact h.param n
-    | .has p, h => by simp only [eval]; exact OLe.map _ (h.has p (by simp [exprRefs]))
-    | .lv, h => by simp only [eval]; exact h.lv
-    | .op f args, h => by
-      simp only [eval]
-      exact applyFn_mono f (evalList_le_on args (by simpa only [exprRefs] using h))
-  theorem evalList_le_on {ρ1 ρ2 : Env} :
-      ∀ es : Exprs, LeOn (exprsRefs es) ρ1 ρ2 → LLe (evalList ρ1 es) (evalList ρ2 es)
-    | .nil, _ => by simp only [evalList]; exact LLe.nil
-    | .cons e es, h => by
-      simp only [evalList]
-      exact LLe.cons
-        (eval_le_on e (h.mono (by intro p hp; simp only [exprsRefs, List.mem_append]; exact Or.inl hp)))
-        (evalList_le_on es (h.mono (by intro p hp; simp only [exprsRefs, List.mem_append]; exact Or.inr hp)))
-end
-
-/-- `[requires]` expressions of the fragment used for completeness mention only `this` and
-parameters (the static fuel bound `need` does not follow references inside validators). -/
-def reqLocalField (f : Field) : Bool :=
-  match f.kind with
-  | .phys _ _ (.scalar _ _ req) _ => (optRefs req).isEmpty
-  | .virt _ req => (optRefs req).isEmpty
-  | _ => true
-
-def reqLocal (sd : StructDef) : Bool := sd.fields.all reqLocalField
-
-theorem need_refs {m : Module} {n : Nat} {sd : StructDef} {x : String} {rest : List String} {f : Field}
-    (hf : sd.field x = some f) (h : need m (n + 1) sd (x :: rest) = true) :
-    ∀ r ∈ fieldRefs f, need m n sd r = true := by
-  simp only [need, hf, Bool.and_eq_true, List.all_eq_true] at h
-  exact h.1
-
-theorem valueIsOk_of_requiresOk {o : Oracle} {w : SView} {ρ : Env} {req : Option Expr} {v : Val}
-    (hff : foldFreeOpt req = true) (hloc : (optRefs req).isEmpty = true)
-    (hp : ∀ n x, ρ.param n = some x → w.param n = some x) (hl : ρ.lv = none)
-    (h : requiresOk ρ req v) : valueIsOk o w req v = true := by
-  cases req with
-  | none => rfl
-  | some r =>
-    simp only [foldFreeOpt] at hff
-    simp only [optRefs, List.isEmpty_iff] at hloc
-    have h1 := h r rfl
-    rw [evalR_eq_eval _ _ hff] at h1
-    have hle : LeOn (exprRefs r) { ρ with lv := some v } (envOf o w (some v)) := by
-      rw [hloc]
-      exact ⟨fun p hq => (by cases hq), fun p hq => (by cases hq), fun n x hx => hp n x hx, OLe.refl _⟩
-    have h2 := eval_le_on r hle _ h1
-    simp only [valueIsOk, evalBool, h2, beq_self_eq_true]
-
-/-- **Completeness of `G` w.r.t. the reference** on flat structures: every fact of R is reported
-by `G` at every fuel that statically covers the path (`need`, the bound `fuelOK` is built from). -/
-theorem G_complete (m : Module) (sd : StructDef) (hflat : flatStruct sd = true)
-    (hloc : reqLocal sd = true) (ps : List Val) (buf : List Nat) : ∀ n fact, RFact sd ps buf fact →
-    match fact with
-    | .val p v => need m n sd p = true → (G m n).read (rootView sd ps buf) p = some v
-    | .pres p b => need m n sd p = true → (G m n).has (rootView sd ps buf) p = some b
-  | 0, fact, _ => by cases fact <;> simp [need]
-  | n + 1, fact, hfact => by
-    have ih := G_complete m sd hflat hloc ps buf n
-    have hsdu : sd.unit = 8 := by
-      unfold flatStruct at hflat
-      simp only [Bool.and_eq_true, beq_iff_eq] at hflat
-      exact hflat.1
-    -- an assignment made of facts is below the model's environment at fuel `n` on covered refs
-    have hle : ∀ (ρ : Env) (refs : List (List String)),
-        (∀ p v, ρ.read p = some v → RFact sd ps buf (.val p v)) →
-        (∀ p c, ρ.has p = some c → RFact sd ps buf (.pres p c)) →
-        (∀ k v, ρ.param k = some v → lookupParam sd.params ps k = some v) → ρ.lv = none →
-        (∀ r ∈ refs, need m n sd r = true) →
-        LeOn refs ρ (envOf (G m n) (rootView sd ps buf) none) := by
-      intro ρ refs hr hh hp hl hn
-      refine ⟨?_, ?_, ?_, ?_⟩
-      · intro p hp' v hv
-        exact ih _ (hr p v hv) (hn p hp')
-      · intro p hp' c hc
-        exact ih _ (hh p c hc) (hn p hp')
-      · intro k v hv
-        exact hp k v hv
-      · rw [hl]; exact OLe.none _
-    -- presence
-    have hpresence : ∀ x f b, sd.field x = some f → RFact sd ps buf (.pres [x] b) →
-        (∀ r ∈ exprRefs f.cond, need m n sd r = true) →
-        hasField (G m n) (rootView sd ps buf) f = some b := by
-      intro x f b hf hfact hn
-      cases hfact with
-      | pres ρ hf' hr hh hp hl he =>
-        rw [hf] at hf'; cases hf'
-        have hff := flat_of_field hflat hf
-        unfold flatField at hff
-        simp only [Bool.and_eq_true] at hff
-        rw [evalR_eq_eval _ _ hff.1] at he
-        have := eval_le_on f.cond (hle ρ _ hr hh hp hl hn) _ he
-        simp only [hasField, evalBool, this]
-    cases hfact with
-    | pres ρ hf hr hh hp hl he =>
-      rename_i x f b
-      intro hneed
-      have hrefs := need_refs hf hneed
-      have := hpresence x f b hf (RFact.pres ρ hf hr hh hp hl he)
-        (fun r hr' => hrefs r (by simp only [fieldRefs, List.mem_append]; exact Or.inl hr'))
-      simp only [G, step]
-      have hsd : (rootView sd ps buf).sd = sd := rfl
-      rw [hsd, hf]
-      exact this
-    | virt ρ hf hk hr hh hp hl hv hreq =>
-      rename_i x f value req v
-      intro hneed
-      have hrefs := need_refs hf hneed
-      have hff := flat_of_field hflat hf
-      unfold flatField at hff
-      rw [hk] at hff
-      simp only [Bool.and_eq_true] at hff
-      have hlf : reqLocalField f = true := by
-        unfold reqLocal at hloc
-        simp only [List.all_eq_true] at hloc
-        exact hloc f (field_mem hf)
-      unfold reqLocalField at hlf
-      rw [hk] at hlf
-      rw [evalR_eq_eval _ _ hff.2.1] at hv
-      have hv' := eval_le_on value (hle ρ _ hr hh hp hl
-        (fun r hr' => hrefs r (by simp only [fieldRefs, hk, List.mem_append]; exact Or.inr hr'))) _ hv
-      have hok : valueIsOk (G m n) (rootView sd ps buf) req v = true :=
-        valueIsOk_of_requiresOk hff.2.2 hlf (fun k y hy => hp k y hy) hl hreq
-      simp only [G, step]
-      have hsd : (rootView sd ps buf).sd = sd := rfl
-      rw [hsd, hf]
-      simp only [hk, virtRead, hv', hok, ↓reduceIte]
-    | scalar ρ hf hk hpres hr hh hp hl hs hz hs0 hz0 hsize hin hv hreq =>
-      rename_i x f start size k bits req bo s z v
-      intro hneed
-      have hrefs := need_refs hf hneed
-      have hff := flat_of_field hflat hf
-      unfold flatField at hff
-      rw [hk] at hff
-      have hlf : reqLocalField f = true := by
-        unfold reqLocal at hloc
-        simp only [List.all_eq_true] at hloc
-        exact hloc f (field_mem hf)
-      unfold reqLocalField at hlf
-      rw [hk] at hlf
-      cases size with
-      | const zv =>
-        cases zv with
-        | bool q => simp at hff
-        | int z' =>
-          simp only [Bool.and_eq_true, decide_eq_true_eq, beq_iff_eq] at hff
-          obtain ⟨hcond, ⟨⟨⟨hkk, hbits⟩, hfstart⟩, hfreq⟩, hz0', hzb⟩ := hff
-          have hzz : z' = z := by
-            simp only [evalR, Option.some.injEq, Val.int.injEq] at hz; exact hz
-          subst hzz
-          rw [evalR_eq_eval _ _ hfstart] at hs
-          have hs' := eval_le_on start (hle ρ _ hr hh hp hl
-            (fun r hr' => hrefs r (by
-              simp only [fieldRefs, hk, List.mem_append]; exact Or.inr (Or.inl (Or.inl hr'))))) _ hs
-          have hhas := hpresence x f true hf hpres
-            (fun r hr' => hrefs r (by simp only [fieldRefs, List.mem_append]; exact Or.inl hr'))
-          have hok : valueIsOk (G m n) (rootView sd ps buf) req v = true :=
-            valueIsOk_of_requiresOk hfreq hlf (fun k y hy => hp k y hy) hl hreq
-          have hst : physStorage (G m n) (rootView sd ps buf) f start (.const (.int z')) =
-              some (.bytes (some ((buf.drop s.toNat).take z'.toNat))) := by
-            simp only [physStorage, hhas, evalInt, eval, hs']
-            rw [if_pos ⟨hz0, hs0⟩]
-            rfl
-          have hlen : ((buf.drop s.toNat).take z'.toNat).length * 8 = bits := by
-            rw [List.length_take, List.length_drop]; omega
-          rw [number_eq, specDecode_eq k bits _ hkk hbits] at hv
-          have hsz : leafSizeOk k bits bits = true := by
-            unfold leafSizeOk
-            cases k <;> simp at hkk ⊢
-          simp only [G, step]
-          have hsd : (rootView sd ps buf).sd = sd := rfl
-          rw [hsd, hf]
-          simp only [hk, hst, hsdu, leaf_root, hlen, ↓reduceIte, leafRead, hsz, hv, hok]
-      | fold a b => simp at hff
-      | ref a => simp at hff
-      | param a => simp at hff
-      | has a => simp at hff
-      | lv => simp at hff
-      | op a b => simp at hff
-
-/-! ### `Equals` on flat structures (C20) -/
-
-theorem step_has_field (m : Module) (n : Nat) (sd : StructDef) (ps : List Val) (buf : List Nat)
-    {x : String} {f : Field} (hf : sd.field x = some f) :
-    (G m (n + 1)).has (rootView sd ps buf) [x] = hasField (G m n) (rootView sd ps buf) f := by
-  simp only [G, step]
-  have hsd : (rootView sd ps buf).sd = sd := rfl
-  rw [hsd, hf]
-
-theorem step_read_scalar (m : Module) (n : Nat) (sd : StructDef) (ps : List Val) (buf : List Nat)
-    {x : String} {f : Field} (hf : sd.field x = some f) {start size : Expr} {k : ScalarKind} {bits : Nat}
-    {req : Option Expr} {bo : ByteOrder} (hk : f.kind = .phys start size (.scalar k bits req) bo) :
-    (G m (n + 1)).read (rootView sd ps buf) [x] =
-      match physStorage (G m n) (rootView sd ps buf) f start size with
-      | some st => leafRead (G m n) (rootView sd ps buf) k bits req (st.adaptFor sd.unit 1 bo bits)
-      | none => none := by
-  simp only [G, step]
-  have hsd : (rootView sd ps buf).sd = sd := rfl
-  rw [hsd, hf]
-  simp only [hk]
-  cases physStorage (G m n) (rootView sd ps buf) f start size <;> rfl
-
-/-- The per-field clause of the generated `Equals`, for a scalar physical field, in terms of what
-the two views report one level up. -/
-theorem fieldEquals_scalar (m : Module) (n : Nat) (sd : StructDef) (ps : List Val) (a b : List Nat)
-    (eqv : SView → SView → Bool) {f : Field} (hf : sd.field f.name = some f)
-    {start size : Expr} {k : ScalarKind} {bits : Nat} {req : Option Expr} {bo : ByteOrder}
-    (hk : f.kind = .phys start size (.scalar k bits req) bo) :
-    fieldEquals (G m n) m eqv (rootView sd ps a) (rootView sd ps b) f =
-      match (G m (n + 1)).has (rootView sd ps a) [f.name], (G m (n + 1)).has (rootView sd ps b) [f.name] with
-      | some ha, some hb =>
-        ha == hb && (!ha ||
-          (match (G m (n + 1)).read (rootView sd ps a) [f.name],
-                 (G m (n + 1)).read (rootView sd ps b) [f.name] with
-           | some x, some y => x == y
-           | _, _ => false))
-      | _, _ => false := by
-  rw [step_has_field m n sd ps a hf, step_has_field m n sd ps b hf,
-    step_read_scalar m n sd ps a hf hk, step_read_scalar m n sd ps b hf hk]
-  simp only [fieldEquals, hk, argsKnown, ↓reduceIte]
-  have hsda : (rootView sd ps a).sd = sd := rfl
-  have hsdb : (rootView sd ps b).sd = sd := rfl
-  cases hasField (G m n) (rootView sd ps a) f with
-  | none => rfl
-  | some ha =>
-    cases hasField (G m n) (rootView sd ps b) f with
-    | none => rfl
-    | some hb =>
-      simp only
-      congr 2
-      cases physStorage (G m n) (rootView sd ps a) f start size with
-      | none => simp
-      | some sa =>
-        cases physStorage (G m n) (rootView sd ps b) f start size with
-        | none => simp
-        | some sb =>
-          simp only [typeEquals, hsda, hsdb]
-          cases leafRead (G m n) (rootView sd ps a) k bits req (Storage.adaptFor sd.unit 1 bo bits sa) <;>
-            cases leafRead (G m n) (rootView sd ps b) k bits req (Storage.adaptFor sd.unit 1 bo bits sb) <;> rfl
+              | array el es => rw [step_has_array_deep m _ w hf hk] at h; cases h
+              | scalar k bits req => rw [step_has_scalar_deep m _ w hf hk] at h; cases h
+              | struct name bits args =>
+                rw [step_has_struct m _ w hf hk] at h
+                cases hsv : subView (G m n) m w f start size name bits args bo with
+                | none => rw [hsv] at h; cases h
+                | some w' =>
+                  rw [hsv] at h
+                  simp only at h
+                  obtain ⟨hr', hw', hlift⟩ := sub_sound hm hP hwf ihw hf hk hsv
+                  exact hlift _ _ rfl ((ih w' hr' hw').2 _ _ h)
 
 end Emboss.ViewRef
